@@ -94,9 +94,9 @@ func init() {
 	workloads["overdraft"] = func(r *run) error {
 		in := odScenario(r.R(), r.Wide())
 		if len(in.Reqs) == 2 {
-			cap := 24
+			cap := 16
 			if r.Wide() {
-				cap = 200
+				cap = 60
 			}
 			return r.explore(in, cap)
 		}
